@@ -37,8 +37,39 @@ Mixed == { G("GC", "XYZ", N, <<PT("XY", C("XY")), LS("XYZ", <<C("XYZ"), D("XYZ")
 Deep(l) == IF Rich THEN { G("GC", l, N, <<x, G("GC", l, N, <<y, G("GC", l, N, <<x>>)>>)>>) : x \in Leaf(l), y \in Multi(l) } ELSE {}
 Geoms == UNION {Leaf(l) \cup Multi(l) \cup Coll(l) \cup Deep(l) : l \in Layouts} \cup Mixed
 WithSrid == {[g EXCEPT !.srid = s] : g \in Geoms, s \in IF Rich THEN Srids ELSE {<<>>, <<0, 0, 16, 230>>, <<255, 255, 255, 255>>}}
+\* geometries in layouts the formats cannot carry (property: "layouts beyond XYZM are rejected with an unsupported-layout
+\* error"; a non-collection geometry without layout): they have no encoding, what is demanded of the encoders is stated
+\* in WKBObs!Clause (no panic; an error, or bytes that decode back to the geometry)
+CN(n, o) == [i \in 1..n |-> o + i]
+NonEnc == { PT("L5", CN(5, 0)), PT("L5", <<>>), PT("L6", CN(6, 0)),
+            LS("L5", <<>>), LS("L5", <<CN(5, 0), CN(5, 10)>>), LS("L6", <<CN(6, 0)>>),
+            PG("L5", <<>>), PG("L6", <<<<CN(6, 0), CN(6, 10), CN(6, 0)>>, <<>>>>),
+            G("MPT", "L5", N, <<>>), G("MPT", "L5", N, <<PT("L5", CN(5, 0)), PT("L5", <<>>)>>),
+            G("MLS", "L6", N, <<LS("L6", <<CN(6, 0), CN(6, 10)>>)>>), G("MLS", "L5", N, <<>>),
+            G("MPG", "L5", N, <<PG("L5", <<<<CN(5, 0), CN(5, 10), CN(5, 0)>>>>)>>), G("MPG", "L6", N, <<>>),
+            G("GC", "L5", N, <<>>), G("GC", "L5", N, <<PT("L5", CN(5, 0))>>),
+            G("GC", "L5", N, <<PT("XY", C("XY")), LS("L5", <<CN(5, 0)>>)>>),
+            G("GC", "L6", N, <<G("GC", "XYZ", N, <<PT("XYZ", C("XYZ"))>>), G("GC", "L6", N, <<PT("L6", <<>>)>>)>>),
+            PT("No", <<>>), LS("No", <<>>), PG("No", <<>>), G("MPT", "No", N, <<>>), G("MLS", "No", N, <<>>), G("MPG", "No", N, <<>>),
+            G("GC", "No", N, <<LS("No", <<>>)>>), G("GC", "XY", N, <<PT("XY", C("XY")), PG("No", <<>>)>>),
+            G("GC", "No", N, <<G("GC", "No", N, <<>>), G("MPT", "No", N, <<>>)>>) }
+NonEncS == NonEnc \cup {[x EXCEPT !.srid = <<0, 0, 16, 230>>] : x \in NonEnc}
+\* collections whose MEMBERS carry SRIDs of their own (equal to, different from, or without the collection's SRID)
+S1 == <<0, 0, 16, 230>>
+S2 == <<255, 255, 255, 254>>
+WS(x, s) == [x EXCEPT !.srid = s]
+MemberSrid == UNION {{ G("GC", l, S1, <<WS(PT(l, C(l)), S2), LS(l, <<C(l), D(l)>>)>>),
+                       G("GC", l, N, <<WS(PT(l, C(l)), S2)>>),
+                       G("GC", l, S1, <<WS(PT(l, <<>>), S1), WS(PG(l, <<<<C(l), D(l), C(l)>>>>), S1)>>),
+                       G("GC", l, S2, <<WS(G("GC", l, N, <<WS(PT(l, D(l)), S1)>>), S2),
+                                        WS(G("MPT", l, N, <<PT(l, C(l)), PT(l, <<>>)>>), S2), LS(l, <<>>)>>),
+                       G("GC", l, N, <<WS(G("GC", l, N, <<>>), S1), WS(G("MLS", l, N, <<LS(l, <<C(l), D(l)>>)>>), S2)>>) } : l \in Layouts}
+              \cup { G("GC", "XYZM", S1, <<WS(PT("XYM", C("XYM")), S2), WS(PT("XYZ", C("XYZ")), S1)>>) }
 VARIABLES g, order, flavor
-Init == g \in WithSrid /\ order \in {"NDR", "XDR"} /\ flavor \in {"wkb", "wkbnan", "ewkb"}
+Init == /\ \/ g \in WithSrid /\ flavor \in {"wkb", "wkbnan", "ewkb"}
+           \/ g \in NonEncS /\ flavor \in {"wkb", "wkbnan", "ewkb"}
+           \/ g \in MemberSrid /\ flavor \in {"wkb", "ewkb"}
+        /\ order \in {"NDR", "XDR"}
 Next == FALSE /\ UNCHANGED <<g, order, flavor>>
 \* in-spec token images (any injective choice of finite doubles) to run the decoder half on the encoder half
 ImgA(tok) == IF tok = 125 THEN <<127, 248, 0, 0, 0, 0, 0, 1>> ELSE IF tok = 126 THEN <<255, 248, 0, 0, 0, 0, 0, 0>>
@@ -50,7 +81,7 @@ EncDecAgree ==
   LET bytes == Concrete(sym, ImgTab)
       r == Decode(bytes, IF flavor = "ewkb" THEN "ewkb" ELSE "wkb", flavor = "wkbnan", <<-1, -1, -1>>) IN
   /\ r.ok /\ r.pos = Len(bytes)
-  /\ r.g = ConcG(Canon(g, flavor), ImgTab)
+  /\ (IF flavor = "ewkb" /\ HasMemberSrid(g) THEN StripM(r.g) ELSE r.g) = ConcG(Canon(g, flavor), ImgTab)
   /\ WFTree(r.g)
 Emit == PrintT(<<"CASE", ToJson([g |-> g, order |-> order, flavor |-> flavor])>>)
 ====
